@@ -17,12 +17,19 @@ def gen_regen(tier, rng):
             # control characters, combining marks ...): the key of a term is chr(exponent + KEY_OFFSET) per indeterminate
             exps = special_exponents(rng) + ([0] if rng.random() < 0.5 else [])
         yield {"p": rand_poly(rng, dtype=rng.choice(["int64", "float64"]), exps=exps), "retain": rng.random() < 0.5}
+    # every coefficient dtype, also for 0-d polynomials (the regenerated object must have the dtype it was made with)
+    for dt in ("int8", "uint8", "int16", "int32", "uint32", "uint64", "float16", "float32", "bool"):
+        for _ in range(count(tier, 3, 20)):
+            shape = rng.choice([(), (), (2,), (2, 2)])
+            pool = [True, False, True] if dt == "bool" else [0, 1, 2, 3, 7] if dt.startswith("u") else [-2, -1, 1, 2, 3] if dt.startswith("i") else [-1.5, 0.5, 1.0, 2.0]
+            yield {"p": rand_poly(rng, shape=shape, dtype=dt, pool=pool), "retain": rng.random() < 0.5}
 
 
 @check("C03", "regenerate.from_attributes_raw_todict", gen_regen,
        functions=("numpoly.polynomial_from_attributes", "numpoly.polynomial", "numpoly.ndpoly"),
        note="bounded: polynomials with <=3 terms (incl. all-zero terms when retained), <=3 indeterminates, 8 shapes; a quarter "
-            "with exponents whose key characters are digits / white space / control / combining characters")
+            "with exponents whose key characters are digits / white space / control / combining characters; plus int8..uint64, float16/32 "
+            "and bool coefficients on 0-d and small arrays (shape and dtype of every regenerated object equal the original's)")
 def regenerate(inp):
     import numpoly
     install_poison()
@@ -107,12 +114,24 @@ def clean_rule(inp):
 def gen_reject(tier, rng):
     for _ in range(count(tier, 60, 400)):
         p = rand_poly(rng, maxterms=3)
-        yield {"p": p, "kind": rng.choice(["dup_rows", "dup_names", "name_count", "len_mismatch", "ok"])}
+        yield {"p": p, "kind": rng.choice(["dup_rows", "dup_names", "name_count", "len_mismatch", "ok"]),
+               "retain": rng.choice([[True, True], [True, True], [False, False], [True, False], [False, True], [None, None]]),
+               "global": [rng.random() < 0.5, rng.random() < 0.5]}
+    # a duplicated name on a column that no term uses (such a column is dropped unless names are retained): still ill-formed
+    for _ in range(count(tier, 30, 200)):
+        p = rand_poly(rng, maxterms=3, names=["q0", "q1", "q2"][: rng.choice([2, 3])])
+        k = rng.randrange(len(p["names"]))
+        p["exponents"] = [[0 if i == k else e for i, e in enumerate(row)] for row in p["exponents"]]
+        rows = sorted({tuple(r) for r in p["exponents"]})
+        p["exponents"], p["coefficients"] = [list(r) for r in rows], p["coefficients"][: len(rows)]
+        yield {"p": p, "kind": "dup_names_unused", "unused": k, "retain": rng.choice([[False, False], [True, False], [None, None]]),
+               "global": [rng.random() < 0.5, False]}
 
 
 @check("C03", "construct.rejects_duplicates", gen_reject, functions=("numpoly.postprocess_attributes", "numpoly.polynomial_from_attributes"),
        note="bounded: duplicate exponent rows / duplicate names / wrong name count / length mismatch must raise "
-            "PolynomialConstructionError; valid attributes must not")
+            "PolynomialConstructionError; valid attributes must not; under every retain_* setting given as argument or as global "
+            "option, also when the duplicated name sits on a column no term uses")
 def rejects(inp):
     import numpoly
     from numpoly.construct.clean import PolynomialConstructionError
@@ -128,13 +147,19 @@ def rejects(inp):
         if len(names) < 2:
             return None
         names[1] = names[0]
+    elif kind == "dup_names_unused":
+        k = inp["unused"]
+        names[k] = names[(k + 1) % len(names)]
     elif kind == "name_count":
         names = names + ["q9"]
     elif kind == "len_mismatch":
         C = C + [C[0]]
+    rc, rn = inp.get("retain", [True, True])
+    gc, gn = inp.get("global", [False, True])
     try:
-        r = numpoly.polynomial_from_attributes(numpy.array(E, dtype=int).reshape(len(E), -1), C, tuple(names),
-                                               retain_coefficients=True, retain_names=True)
+        with numpoly.global_options(retain_coefficients=gc, retain_names=gn):
+            r = numpoly.polynomial_from_attributes(numpy.array(E, dtype=int).reshape(len(E), -1), C, tuple(names),
+                                                   retain_coefficients=rc, retain_names=rn)
     except PolynomialConstructionError:
         return None if kind != "ok" else "valid attributes rejected"
     except Exception as e:
